@@ -478,9 +478,11 @@ def _main(tier_, master, cfg, docs, A, cwd, t0):
     def w(wi, nw):
         mods = prepare()
         st = Counter(); hs = set(); nt = set(); viols = {}; samples = []; allfiles = set(); allsocks = []
+        rd = [0]
         for i in range(wi, n, nw):
             kind, calls = history_for(master, i, docs, table)
             outs, opened, sk, _ = run_history(mods, calls, cwd)
+            rd[0] = (rd[0] + common.run_digest_term(i, [calls, outs])) & ((1 << 64) - 1)
             st.inc('runs'); st.inc('calls', len(calls)); st.inc('kind:' + kind)
             allfiles |= set(opened); allsocks += sk
             fl = flags(calls, table)
@@ -515,11 +517,13 @@ def _main(tier_, master, cfg, docs, A, cwd, t0):
             elif len(bad) == 1:
                 fst.inc('faulted_call_differs')
         return {'st': st, 'hs': hs, 'nt': nt, 'viols': viols, 'samples': samples, 'files': allfiles,
-                'socks': allsocks, 'fst': fst}
+                'socks': allsocks, 'fst': fst, 'rd': rd[0]}
 
     parts = common.run_pool(w, common.ncpu(), wall_cap=cfg['wall'])
     st = Counter(); fst = Counter(); hs = set(); nt = set(); viols = {}; samples = []
+    rd = 0
     for p in parts:
+        rd = (rd + p['rd']) & ((1 << 64) - 1)
         st.merge(p['st']); fst.merge(p['fst']); hs |= p['hs']; nt |= p['nt']; samples += p['samples']
         files |= p['files']; socks += p['socks']
         for cls, v in p['viols'].items():
@@ -578,6 +582,7 @@ def _main(tier_, master, cfg, docs, A, cwd, t0):
         'violating_runs': st.get('violating_runs', 0),
         'violation_classes': sorted(viols),
         'determinism': det,
+        'all_runs_digest': '%016x' % rd,
         'components': {'real': ['athlib.utils (working tree)', 'jsonschema 3.2', 'json', 'urllib file: handler', 'the bundled schema and sample files'],
                        'simulated': ['process freshness (fork from a pristine importer)', 'network (permanently partitioned: socket seam raises and records)',
                                      'file opens (pass-through seam recording every path; failing/short reads only in the diagnostic fault runs)'],
